@@ -5,9 +5,12 @@ tolerance, rebuild the coefficient arrays with `poly`.
 
 `numpy.roots` is external: the root lists are arguments (contract: the polynomial is its leading
 coefficient times the product of `X - r` over the list).  The tolerance test
-`abs(z - p) < tol or 1000 * max(eps, abs(z) * sqrt(eps))` is a predicate argument `close`.
+`abs(z - p) < tol or 1000 * max(eps, abs(z) * sqrt(eps))` is a predicate argument `close`; its two
+concrete instances (rational roots, Gaussian-rational roots) are `Minreal.closeQ` and
+`Minreal.closeQI` below: the tolerance of a zero depends on that zero only.
 -/
 import CtrlVerif.Model.TF
+import CtrlVerif.Model.QI
 
 namespace CtrlVerif
 
@@ -46,6 +49,44 @@ def minrealEntry (close : K → K → Bool) (f : Frac K) (zeros poles : List K) 
       pure (Frac.norm ⟨scale (n0 / d0) (polyFromRoots r.1), polyFromRoots r.2⟩)
   | _, _ => .error .badArg
 
+/-- the decidable form of "the tolerance test identifies only equal roots among these zeros and
+poles" (the hypothesis of `C15.minreal_sem_on`; certified by the driver on every call). -/
+def rootsSeparated (close : K → K → Bool) (zs ps : List K) : Bool :=
+  zs.all fun z => ps.all fun p => !close z p || decide (z = p)
+
 end
+
+namespace Minreal
+
+/-- `float_info.epsilon`. -/
+def eps : ℚ := 1 / 2 ^ 52
+
+/-- `sqrt(float_info.epsilon)` (exactly `2⁻²⁶`). -/
+def sqrtEps : ℚ := 1 / 2 ^ 26
+
+/-- `tol or 1000 * max(eps, abs(z) * sqrt_eps)`: the tolerance used for the zero `z` — a function
+of the explicit argument and of `z` alone (`tol = 0` is falsy in Python). -/
+def tolOf (tol : Option ℚ) (z : ℚ) : ℚ :=
+  match tol with
+  | some t => if t = 0 then 1000 * max eps (|z| * sqrtEps) else t
+  | none => 1000 * max eps (|z| * sqrtEps)
+
+/-- `abs(z - p) < t`. -/
+def closeQ (tol : Option ℚ) (z p : ℚ) : Bool := decide (|z - p| < tolOf tol z)
+
+/-- `|w|²` of a Gaussian rational. -/
+def normSqQI (w : QI) : ℚ := w.re * w.re + w.im * w.im
+
+/-- the square of the tolerance used for the complex zero `z`:
+`t² = tol²` or `10⁶ · max(eps², |z|² · eps)`. -/
+def tolSqOf (tol : Option ℚ) (z : QI) : ℚ :=
+  match tol with
+  | some t => if t = 0 then 1000000 * max (eps * eps) (normSqQI z * eps) else t * t
+  | none => 1000000 * max (eps * eps) (normSqQI z * eps)
+
+/-- the same test for Gaussian-rational roots, on squares: `|z - p|² < t²`. -/
+def closeQI (tol : Option ℚ) (z p : QI) : Bool := decide (normSqQI (z - p) < tolSqOf tol z)
+
+end Minreal
 
 end CtrlVerif
